@@ -176,6 +176,15 @@ class Driver:
         try:
             w = Conn(self.daemon.path, abstract=self.daemon.abstract)
             w.hello()
+            # half-close and wait for the daemon's own close (end of file on our side): only then is its
+            # descriptor for this connection gone, however slowly it is scheduled
+            try:
+                w.s.shutdown(socket.SHUT_WR)
+                w.s.settimeout(5.0)
+                while w.s.recv(65536):
+                    pass
+            except (IOError, OSError):
+                pass
             w.close()
         except (IOError, OSError):
             pass
@@ -523,7 +532,14 @@ class Driver:
                     sum(1 for s in rec_ops for o in rec_ops[s] if o['k'] == 'connect'):
                 time.sleep(0.002)
         if self.noexec_wait:
-            time.sleep(0.25)      # a start that cannot succeed (no such program) has failed by now
+            # a start that cannot succeed (no such program) has failed by now: the daemon's log says when
+            # (requests of clients that pinged after writing are in the log already; the others get a moment)
+            time.sleep(0.25 if any(s not in p1 for s in rec_ops if rec_ops[s]) else 0.03)
+            t0 = time.time()
+            while time.time() - t0 < 5.0 and any(self.start_under_way(a['n']) for a in (self.cfg.get('act') or [])
+                                                 if a['kind'] == 'noexec'):
+                time.sleep(0.005)
+            time.sleep(0.03)
         # phase 2: closing barrier
         sync = []
         for s in sorted(self.slots):
@@ -642,7 +658,13 @@ class Driver:
             except OSError:
                 break
             time.sleep(0.003)
-        time.sleep(0.06)       # the babysitter's report reaches the daemon
+        # the babysitter's report reaches the daemon: a failed start is over when the daemon's log says so
+        # (an exit with status 0 ends nothing, there is nothing to wait for)
+        if op.get('signaled') or op.get('status', 0) != 0:
+            t0 = time.time()
+            while time.time() - t0 < 5.0 and self.start_under_way(op['n']):
+                time.sleep(0.005)
+        time.sleep(0.06)
         return {'k': 'svc_exit', 'n': B(op['n']), 'status': op.get('status', 0), 'signaled': bool(op.get('signaled'))}
 
     def start_under_way(self, n):
